@@ -84,6 +84,23 @@ class C08(VariantCheck):
             f.write("CONSTANTS Eps = 1\n MaxSegs = 3\n MaxRank = 8\n Slack = 1\n MinGap = 1\nSPECIFICATION Spec\nINVARIANTS NoUpwardShift\nCHECK_DEADLOCK FALSE\n")
         ms.append(ModelRun("CompIntercepts.tla", cfg, "sensitivity: segments that start one rank apart (chunk seam) get an intercept moved up (F16)", workers=1, timeout=300,
                            expect="violation:*", constants={"Eps": 1, "MinGap": 1}))
+        def comp_cfg(name, u, n, eps, chunks, inv):
+            c = os.path.join(work, name + ".cfg")
+            with open(c, "w") as f:
+                f.write("CONSTANTS U = %d\n N = %d\n Eps = %d\n NChunks = %d\n Sentinel = %d\nSPECIFICATION Spec\nINVARIANTS %s\nCHECK_DEADLOCK FALSE\n" % (u, n, eps, chunks, u, inv))
+            return c
+        ALLC = "Shape C08Present C08LowerBound BuilderOK ClampOK NoUpwardShift"
+        for u, n, eps in ((10, 7, 1), (10, 8, 2)) + (((12, 8, 1), (12, 9, 2)) if tier == "thorough" else ()):
+            name = "Compressed_U%d_N%d_e%d" % (u, n, eps)
+            ms.append(ModelRun("Compressed.tla", comp_cfg(name, u, n, eps, 1, ALLC), name + " (exact geometry of merge_slopes + clamped intercepts + search, sequential first level)",
+                               workers=4, timeout=2400, heap="8g", constants={"U": u, "N": n, "Eps": eps, "NChunks": 1}))
+        ms.append(ModelRun("Compressed.tla", comp_cfg("Compressed_seam", 12, 8, 1, 3, "Shape C08Present C08LowerBound"),
+                           "sensitivity: a first level built in 3 chunks violates the search contract (F16 with exact geometry)", workers=4, timeout=900,
+                           expect="violation:*", constants={"U": 12, "N": 8, "Eps": 1, "NChunks": 3}))
+        ms.append(ModelRun("Compressed.tla", comp_cfg("Compressed_wshared", 10, 6, 1, 1, "WitnessShared"), "witness: two segments share a slope", workers=2, timeout=600,
+                           expect="violation:*", constants={"U": 10, "N": 6}))
+        ms.append(ModelRun("Compressed.tla", comp_cfg("Compressed_w3", 12, 8, 1, 1, "WitnessThreeSegments"), "witness: three segments on one level", workers=4, timeout=900,
+                           expect="violation:*", constants={"U": 12, "N": 8}))
         ms.append(ApalacheRun("ClampLemma.tla", "Lemma", "ClampLemma (Apalache): starts >= 2 Eps + 1 apart => the lower clamp of the stored intercepts never binds, for all integers"))
         ms.append(ApalacheRun("ClampLemma.tla", "Seam", "ClampLemma (Apalache), sensitivity: starts 1 apart (chunk seam) => an intercept is moved up", expect="violation:*"))
         for eps, er, route in ((1, 1, "linear"), (1, 1, "binary_window"), (1, 0, "binary_one_level")):
